@@ -244,7 +244,8 @@ def main(tier, seed):
         quads.append((a["code"], e1, b["code"], e2)); qmeta.append((i, vn, jobs[k][0], jobs[k + 1][0], a, b))
         # uncalled library function / __main__ block contribute nothing
         for marker, what in (("12345", "a library function that is never called"), ("777", "the library's __main__ block")):
-            if marker in a["code"]:
+            import re as _re
+            if _re.search(r"(?<![\w.$-])" + marker + r"(?![\w.])", a["code"]):
                 run.violation(f"{what} contributes instructions", {"kind": "dead_code", "option_set": vn, "split": jobs[k][0], "code": a["code"]})
     try:
         pipeline.diff_cases(cases_split + cases_merged, name="c13s")
